@@ -276,6 +276,29 @@ func planFaults(ti int, data []byte) []Fault {
 				Bytes: strings.Repeat("ff", fd.Len+9), Block: fd.Block, InLog: fd.InLog, Feat: feat})
 		}
 	}
+	// the index graph (spec/NavFault.tla): every index entry redirected to every block of the file - a block before it,
+	// its own block, a later block, of any type - keeping the entry's encoded length so nothing else moves
+	nedge := 0
+	for _, fd := range f.Fields {
+		if fd.Name != "index.block_position" || fd.Block < 0 || fd.InLog {
+			continue
+		}
+		own := f.Blocks[fd.Block].Off
+		for _, b := range f.Blocks {
+			if b.Off == fd.Val || len(putVarint(b.Off)) != fd.Len || nedge >= 6000 {
+				continue
+			}
+			rel := "before"
+			if b.Off == own {
+				rel = "own"
+			} else if b.Off > own {
+				rel = "after"
+			}
+			nedge++
+			out = append(out, Fault{Table: ti, Field: fd.Name, Class: fmt.Sprintf("edge_to_%c_%s", b.Type, rel), Kind: "edit", Off: fd.Off, Len: fd.Len,
+				Bytes: hex.EncodeToString(putVarint(b.Off)), Block: fd.Block, Feat: feat})
+		}
+	}
 	// a log block whose deflate stream inflates to far more than its declared length ("bomb")
 	nb := 0
 	for bi, b := range f.Blocks {
